@@ -85,6 +85,68 @@ Section Str.
     - reflexivity.
   Qed.
 
+  (* ---------------------------------------------------------------- lines *)
+  Lemma split_go_char_pieces : forall (c : Ch) s cur, ~ In c cur ->
+    Forall (fun l => ~ In c l) (split_go ceqb [c] 0 cur s).
+  Proof.
+    intros c. induction s as [|a t IH]; intros cur Hc; cbn [split_go prefixb].
+    - constructor; [|constructor]. intros H. apply in_rev in H. auto.
+    - destruct (ceqb c a) eqn:E; cbn [andb length Nat.sub].
+      + constructor; [intros H; apply in_rev in H; auto|]. apply IH. intros [].
+      + apply IH. intros [Heq|H]; [subst a|auto]. assert (ceqb c c = true) by now apply ceqb_spec. congruence.
+  Qed.
+
+  Lemma join_snoc : forall sep (l : list str) p, l <> [] -> sl_join sep (l ++ [p]) = sl_join sep l ++ sep ++ p.
+  Proof.
+    intros sep. induction l as [|q t IH]; intros p H; [congruence|].
+    destruct t as [|q2 t']; [reflexivity|].
+    change ((q :: q2 :: t') ++ [p]) with (q :: ((q2 :: t') ++ [p])).
+    rewrite (join_cons sep q ((q2 :: t') ++ [p])) by (cbn [app]; discriminate).
+    rewrite (IH p) by discriminate.
+    rewrite (join_cons sep q (q2 :: t')) by discriminate. now rewrite !app_assoc.
+  Qed.
+
+  Lemma join_ends_with_last : forall sep (l : list str) p, exists pre, sl_join sep (l ++ [p]) = pre ++ p.
+  Proof.
+    intros sep l p. destruct l as [|q t]; [exists []; reflexivity|].
+    rewrite join_snoc by discriminate. exists (sl_join sep (q :: t) ++ sep). now rewrite app_assoc.
+  Qed.
+
+  (* lines(s): no line contains the newline; joining the lines with newlines gives s back, up to the
+     one trailing newline that is ignored. Any other character - "\r" included - is ordinary. *)
+  Theorem lines_spec : forall (nl : Ch) (s : str),
+    Forall (fun l => ~ In nl l) (sl_lines ceqb nl s) /\
+    (forall t, s = t ++ [nl] -> sl_join [nl] (sl_lines ceqb nl s) ++ [nl] = s) /\
+    ((forall t, s <> t ++ [nl]) -> sl_join [nl] (sl_lines ceqb nl s) = s).
+  Proof.
+    intros nl s. unfold sl_lines.
+    pose proof (join_split_go [nl] ltac:(discriminate) (length s) s [] (le_n _)) as J. cbn [rev app] in J.
+    pose proof (split_go_char_pieces nl s [] (fun H => H)) as P.
+    pose proof (split_go_nonempty [nl] s 0 []) as NE.
+    set (ps := split_go ceqb [nl] 0 [] s) in *.
+    rewrite <- (rev_involutive ps) in J, P. destruct (rev ps) as [|p r] eqn:E.
+    { exfalso. apply NE. rewrite <- (rev_involutive ps), E. reflexivity. }
+    cbn [rev] in J, P. apply Forall_app in P as [P1 P2]. pose proof (Forall_inv P2) as Pp. cbv beta in Pp.
+    destruct p as [|a p'].
+    - (* the last piece is empty: it is dropped *)
+      split; [exact P1|]. destruct r as [|q r'].
+      + cbn in J. subst s. split; [intros t Ht; destruct t; discriminate|reflexivity].
+      + rewrite join_snoc in J by (cbn [rev]; intros H; apply app_eq_nil in H as [_ H]; discriminate).
+        rewrite app_nil_r in J. split; [intros t Ht; exact J|].
+        intros H. exfalso. apply (H (sl_join [nl] (rev (q :: r')))). now rewrite <- J.
+    - (* the last piece is not empty: nothing is dropped, and s does not end with a newline *)
+      assert (Hps : ps = rev r ++ [a :: p']) by (rewrite <- (rev_involutive ps), E; reflexivity).
+      rewrite Hps. split; [apply Forall_app; split; [exact P1|constructor; [exact Pp|constructor]]|].
+      split; [|intros _; exact J].
+      intros t Ht. exfalso. destruct (join_ends_with_last [nl] (rev r) (a :: p')) as (pre & Hpre).
+      unfold SeqLib.str in *. assert (J2 : pre ++ a :: p' = t ++ [nl]) by congruence. clear J Hpre Ht.
+      apply (f_equal (@rev Ch)) in J2.
+      rewrite !rev_app_distr in J2. cbn [rev app] in J2.
+      destruct (rev p') as [|b u] eqn:Er; cbn [app] in J2; inversion J2; subst.
+      + apply Pp. now left.
+      + apply Pp. right. apply in_rev. rewrite Er. now left.
+  Qed.
+
   (* words: no word is empty or contains whitespace, and the words concatenate to the string with
      its whitespace removed *)
   Variable is_space : Ch -> bool.
